@@ -214,8 +214,10 @@ impl PathTpc {
                 for (prev, curr) in link.headings.windows(2).map(|x| (&x[0], &x[1])) {
                     let length = curr.offset - prev.offset;
 
+                    // headings lie in [0, REV): shift by a whole revolution so that `%`
+                    // (sign of the dividend) wraps a negative difference as well
                     let curvature = (-uc::REV / 2.0
-                        + (curr.heading - prev.heading + uc::REV / 2.0) % uc::REV)
+                        + (curr.heading - prev.heading + uc::REV / 2.0 + uc::REV) % uc::REV)
                         .abs()
                         / length;
                     let one_degree = uc::DEG / (uc::FT * 100.0);
